@@ -15,9 +15,12 @@ import (
 	"flag"
 	"fmt"
 	"os"
+	"reflect"
 	"runtime"
 	"sync"
 	"time"
+
+	"github.com/cockroachdb/redact"
 )
 
 // freeMode makes the pool seam a pass-through and makes curEnv look the
@@ -75,6 +78,10 @@ func executeFree(plan *Plan) (viol []Violation, ops int) {
 		e.expected = exp[ti]
 		e.sinkCh = sinkCh
 		envs[ti] = e
+	}
+	if plan.Cfg.LateReg > 0 {
+		lateRegCounter++
+		redact.RegisterSafeType(reflect.TypeOf(lateRegValue()))
 	}
 	freeMode = true
 	var wg, ready sync.WaitGroup
